@@ -29,6 +29,9 @@ pub struct Cfg {
     /// the object comes from a stream (no content encoding) instead of a buffer: every transfer re-reads it
     #[serde(default)]
     pub stream: bool,
+    /// gzip content encoding (compressible text): losses x content encoding
+    #[serde(default)]
+    pub cenc: bool,
 }
 
 impl Cfg {
@@ -57,6 +60,10 @@ impl Cfg {
         o.inband_cenc = self.inband_fti != self.split_sig;
         if self.stream {
             o.source = Source::Stream(3);
+        }
+        if self.cenc {
+            o.cenc = 3;
+            o.text = true;
         }
         // half of the sessions without Content-MD5 (the receiver then has no second line of defence)
         o.md5 = (self.shape as u32 + self.interleave as u32 + self.k as u32) % 2 == 0;
@@ -446,12 +453,15 @@ fn configs(thorough: bool) -> Vec<Cfg> {
                             if n > nmax {
                                 continue;
                             }
-                            v.push(Cfg { scheme, k, parity, shape, interleave, inband_fti, count, split_sig: false, stream: false });
+                            v.push(Cfg { scheme, k, parity, shape, interleave, inband_fti, count, split_sig: false, stream: false, cenc: false });
+                            if count == 1 && interleave <= 2 && shape == 0 && scheme != Scheme::Raptor {
+                                v.push(Cfg { scheme, k, parity, shape, interleave, inband_fti, count, split_sig: false, stream: false, cenc: true });
+                            }
                             if count == 2 && interleave <= 2 && shape <= 1 {
-                                v.push(Cfg { scheme, k, parity, shape, interleave, inband_fti, count, split_sig: false, stream: true });
+                                v.push(Cfg { scheme, k, parity, shape, interleave, inband_fti, count, split_sig: false, stream: true, cenc: false });
                             }
                             if count == 1 && interleave <= 2 && shape <= 1 {
-                                v.push(Cfg { scheme, k, parity, shape, interleave, inband_fti, count, split_sig: true, stream: false });
+                                v.push(Cfg { scheme, k, parity, shape, interleave, inband_fti, count, split_sig: true, stream: false, cenc: false });
                             }
                         }
                     }
@@ -472,7 +482,7 @@ fn configs(thorough: bool) -> Vec<Cfg> {
             }
             for interleave in [1u8, 3] {
                 for inband_fti in [true, false] {
-                    v.push(Cfg { scheme, k, parity, shape, interleave, inband_fti, count: 1, split_sig: interleave == 3, stream: false });
+                    v.push(Cfg { scheme, k, parity, shape, interleave, inband_fti, count: 1, split_sig: interleave == 3, stream: false, cenc: false });
                 }
             }
         }
@@ -482,15 +492,15 @@ fn configs(thorough: bool) -> Vec<Cfg> {
         if !thorough && !(scheme == Scheme::Rs28Us && parity == 6) && scheme != Scheme::Rs28 {
             continue;
         }
-        v.push(Cfg { scheme, k, parity, shape: 6, interleave: 1, inband_fti: k % 2 == 0, count: 1, split_sig: false, stream: false });
+        v.push(Cfg { scheme, k, parity, shape: 6, interleave: 1, inband_fti: k % 2 == 0, count: 1, split_sig: false, stream: false, cenc: false });
     }
     // objects of 2100 source blocks, transferred twice: the receiver's block table has to grow past its
     // pre-allocation (2048) while an early block is still incomplete
     // (RS GF(2^8) of RFC 5510 cannot carry that many blocks: its object size limit refuses the object)
     for (scheme, parity) in [(Scheme::NoCode, 0u16), (Scheme::Rs28Us, 1)] {
-        v.push(Cfg { scheme, k: 1, parity, shape: 7, interleave: 1, inband_fti: true, count: 2, split_sig: false, stream: false });
+        v.push(Cfg { scheme, k: 1, parity, shape: 7, interleave: 1, inband_fti: true, count: 2, split_sig: false, stream: false, cenc: false });
         if thorough {
-            v.push(Cfg { scheme, k: 1, parity, shape: 7, interleave: 3, inband_fti: false, count: 2, split_sig: false, stream: false });
+            v.push(Cfg { scheme, k: 1, parity, shape: 7, interleave: 3, inband_fti: false, count: 2, split_sig: false, stream: false, cenc: false });
         }
     }
     v
